@@ -36,7 +36,9 @@ META = {
     "assumptions": ["exact real arithmetic (IEEE rounding outside the claim)",
                     "lstsq returns a least-squares solution (normal equations); nothing else is assumed about it",
                     "alpha in [0,1]"],
-    "outside": ["n > 5 rows, > 4 sensitive columns", "float rounding", "1-d inputs"],
+    "outside": ["n > 5 rows, > 4 sensitive columns", "float rounding", "1-d inputs",
+                "machine dtypes (int*, uint8, bool, float32): arrays of these types cannot hold solver terms; they are covered by a CONCRETE exhaustive sweep of all "
+                "{0,1,2}-valued n x 2 matrices (n = 2, 3) and {0,1}-valued 3 x 3 matrices per dtype (job 'dtypes'), which is enumeration, not a solver verdict"],
 }
 
 
@@ -153,7 +155,76 @@ def jobs(tier, seed):
         for (c1, c2) in ((["s", "a", "b"], ["a", "b", "s"]), (["a", "s", "b"], ["s", "b", "a"]), (["s", "t", "a"], ["a", "t", "s"])):
             js.append({"id": f"refit-n{n}-{''.join(c1)}-{''.join(c2)}", "mode": "refit", "n": n, "cols1": c1, "cols2": c2, "cap_ms": cap, "s": 1, "m": 2, "sens": [0], "ids": "name",
                        "layout": "refit"})
+    # machine dtypes (integers, narrow floats, bool) cannot hold proxies: concrete sweep, see _run_dtypes
+    js.append({"id": "dtypes", "mode": "dtypes", "n": 3, "s": 1, "m": 1, "sens": [0], "ids": "pos", "layout": "dtypes", "cap_ms": cap})
     return js
+
+
+DTYPES = ["int64", "int32", "int8", "uint8", "bool", "float32", "float64"]
+
+
+def _dtype_cases():
+    """every n x 2 matrix over {0,1,2} for n = 2, 3 (bool: over {0,1}) in each machine dtype, as ndarray (ids by position) and DataFrame (ids by name);
+    plus 3-column integer matrices with two sensitive columns"""
+    for dt in DTYPES:
+        vals = (0, 1) if dt == "bool" else (0, 1, 2)
+        for n in (2, 3):
+            for flat in itertools.product(vals, repeat=2 * n):
+                yield dt, np.array(flat, dtype=dt).reshape(n, 2), [0]
+        if dt in ("int64", "uint8"):
+            for flat in itertools.product((0, 1), repeat=9):
+                yield dt, np.array(flat, dtype=dt).reshape(3, 3), [0, 2]
+
+
+def _dtype_problem(dt, A, sens, as_frame):
+    from fairlearn.preprocessing import CorrelationRemover
+
+    n, tot = A.shape
+    cols = [f"c{j}" for j in range(tot)]
+    X = pd.DataFrame(A, columns=cols) if as_frame else A
+    ids = [cols[j] for j in sens] if as_frame else list(sens)
+    tol = 1e-4 if dt == "float32" else 1e-9
+    try:
+        cr = CorrelationRemover(sensitive_feature_ids=ids, alpha=1).fit(X)
+        out = np.asarray(cr.transform(X), dtype=float)
+    except Exception as e:
+        return f"raised {type(e).__name__}: {e}"
+    use = [j for j in range(tot) if j not in sens]
+    if out.shape != (n, len(use)):
+        return f"output shape {out.shape}"
+    exact = [[fractions.Fraction(int(v)) for v in row] for row in A.tolist()]
+    for j in sens:
+        mj = sum(r[j] for r in exact) / n
+        for k in range(len(use)):
+            mk = float(np.mean(out[:, k]))
+            cov = sum(float(exact[i][j] - mj) * (out[i, k] - mk) for i in range(n))
+            if abs(cov) > tol:
+                return f"cov(sensitive column {j}, output column {k}) = {cov:.6g}"
+    return None
+
+
+def _run_dtypes(job, acc):
+    r = acc.r
+    cases = 0
+    for dt, A, sens in _dtype_cases():
+        for as_frame in (False, True):
+            cases += 1
+            r["obligations"] += 1
+            r["ob_names"]["machine_dtype_output_uncorrelated"] = r["ob_names"].get("machine_dtype_output_uncorrelated", 0) + 1
+            bad = _dtype_problem(dt, A, sens, as_frame)
+            if bad:
+                r["sat"] += 1
+                if len(r["cex"]) < 4:
+                    r["cex"].append({"obligation": "machine_dtype_output_uncorrelated", "signature": f"dtype:{dt}", "job": job, "model": {},
+                                     "extra": {"dtype": dt, "matrix": A.astype(int).tolist(), "sens": sens, "frame": as_frame, "problem": bad}})
+            else:
+                r["discharged"] += 1
+    r["paths"] += 1
+    r["paths_with_obligations"] += 1
+    r["canaries"] += 1
+    r["canaries_fired"] += 1
+    r["samples"].append({"job": "dtypes", "cases": cases})
+    return acc.result()
 
 
 def _build_X(job, prefix, sym_sens):
@@ -213,6 +284,8 @@ def run_job(job, deadline):
 
     if job.get("mode") == "refit":
         return _run_refit(job, deadline)
+    if job.get("mode") == "dtypes":
+        return _run_dtypes(job, JobAcc(job))
     acc = JobAcc(job, ob_timeout_ms=job["cap_ms"])
     n, s, m, sens = job["n"], job["s"], job["m"], job["sens"]
     tot = s + m
@@ -316,6 +389,11 @@ def replay(cex):
 
     if cex["job"].get("mode") == "refit":
         return _replay_refit(cex)
+    if cex["job"].get("mode") == "dtypes":
+        e = cex["extra"]
+        bad = _dtype_problem(e["dtype"], np.array(e["matrix"], dtype=e["dtype"]), e["sens"], e["frame"])
+        return {"reproduced": bad is not None, "signature": f"dtype:{e['dtype']}",
+                "detail": f"{bad} for X = {e['matrix']} with dtype {e['dtype']} ({'DataFrame, ids by name' if e['frame'] else 'ndarray, ids by position'}), sensitive columns {e['sens']}, alpha=1"}
     job, mdl = cex["job"], cex["model"]
     n, s, m, sens = job["n"], job["s"], job["m"], job["sens"]
     tot = s + m
